@@ -261,6 +261,62 @@ pub fn run_c05(ctx: &Ctx, rep: &mut Report) {
         }
     }
     rep.tally_n("pattern_lists", n as u64);
+    // Candidate-free gaps of 2^16 and 2^20 bytes behind a false candidate, with
+    // an occurrence straddling the end of the gap at every alignment: whatever
+    // a search loop does "every so many bytes" while a prefilter finds nothing
+    // must not lose the occurrence behind it.
+    let mega = ctx.tier.pick(0, 3, 10);
+    let mut done = 0;
+    let mut li = 0u64;
+    while done < mega && li < 400 {
+        li += 1;
+        let mut rng = root.fork(0x3E6A_0000 + li);
+        let (pats, ci) = prefilter_patterns(&mut rng);
+        if ci || pats.iter().any(|p| p.is_empty()) || pats.iter().map(|p| p.len()).sum::<usize>() > 400 {
+            continue;
+        }
+        let kind = Kind::ALL[(li as usize + ctx.shard) % 3];
+        let base = Cfg::new(*rng.pick(&[Imp::TopCnfa, Imp::TopDfa, Imp::LowNnfa, Imp::TopAuto]), kind);
+        let variant = base.prefilter_variant(&pats);
+        if variant == "none" {
+            continue;
+        }
+        let (on, off) = match (build_or_report(rep, &base, &pats), build_or_report(rep, &base.pre(false), &pats)) {
+            (Some(a), Some(b)) => (Built { cfg: base, s: a }, Built { cfg: base.pre(false), s: b }),
+            _ => continue,
+        };
+        let mut used = [false; 256];
+        for p in &pats {
+            for &b in p {
+                used[b as usize] = true;
+            }
+        }
+        let filler = match (b'0'..=b'9').chain(0x80..=0xFFu8).find(|&b| !used[b as usize]) {
+            Some(f) => f,
+            None => continue,
+        };
+        let p = rng.pick(&pats).clone();
+        for (gi, &gap) in [1usize << 16, 1 << 20, 1 << 20, 1 << 20].iter().enumerate() {
+            // false candidate: one byte of the pattern on its own
+            let mut hay = vec![filler; 3 + rng.below(5)];
+            hay.push(*rng.pick(&p));
+            let back_in_start_state = hay.len();
+            // the occurrence begins j bytes before the end of the gap
+            let j = if gi == 0 { rng.below(p.len() + 1) } else { (gi - 1) * p.len() / 2 + rng.below(2) };
+            let j = j.min(p.len());
+            hay.extend(std::iter::repeat(filler).take(gap - j));
+            debug_assert_eq!(hay.len(), back_in_start_state + gap - j);
+            hay.extend_from_slice(&p);
+            hay.extend(std::iter::repeat(filler).take(50));
+            hay.extend_from_slice(&p);
+            hay.push(filler);
+            let l = hay.len();
+            c05_check_one(rep, &pats, &on, &off, &variant, &hay, (0, l));
+            rep.tally("gap_cases");
+            rep.tally(&format!("gap_cases_{}", variant));
+        }
+        done += 1;
+    }
 }
 
 pub fn replay_c05(case: &J, rep: &mut Report) -> Result<(), String> {
